@@ -32,6 +32,7 @@ let handle fields impl : string option * string list =
   | ["fc"; _; _; _; _; st; _; ";"; reqid; cid; recs] ->
     let nodelist = if recs = "." then [] else List.map (fun s -> fst (parse_rec s)) (split ',' recs) in
     let requester = nhex reqid and cid = nhex cid in
+    let st = if starts st "T!" || starts st "P!" then String.sub st 2 (String.length st - 2) else st in
     let stv = if st = "N" || starts st "N@" then St_NotFound else if st = "E" || starts st "E:" then St_Error
       else St_Found (b (Util.bytes_of_hex (String.sub st 2 (String.length st - 2)))) in
     let find t = if t = "?" then None else List.find_opt (fun r -> tag_of r = int_of_string t) nodelist in
@@ -60,7 +61,8 @@ let handle fields impl : string option * string list =
     (match parts with
      | [kind; len; _] | [kind; len] when kind = "raw" || kind = "connid" || kind = "enrs" ->
        if int_n (talkresp_datagram (n_ 8) false (n_ (int_of_string len)) false) > 1280 then add (Printf.sprintf "findcontent-reply-too-big reply=%s" len)
-     | _ -> if starts impl "malformed" then add ("findcontent-reply-malformed " ^ impl) else if starts impl "panic" then add ("findcontent-panic " ^ impl));
+     | _ -> if starts impl "reply-changed-by-later-request" then add "findcontent-reply-changed-by-later-request the-reply-bytes-were-overwritten-while-a-second-request-was-served"
+       else if starts impl "malformed" then add ("findcontent-reply-malformed " ^ impl) else if starts impl "panic" then add ("findcontent-panic " ^ impl));
     (match stv, parts with
      | St_Found c, ["raw"; _; h] -> if Util.bytes_of_hex h <> ub c then add "findcontent-wrong-bytes inline-bytes-differ-from-the-stored-bytes"
      | St_Found c, ["connid"; _] -> if List.length (ub c) <= int_n findcontent_max_payload then add "findcontent-small-content-not-inline"
